@@ -26,44 +26,7 @@ def run(ck: Checker):
     mod = ck.repo.module(WORKER)
     smod = ck.repo.module(SERVLET)
     # ------------------------------------------------------------------ C04-1
-    sites = [
-        (mod.func('Worker.stream'), 'self.call'),
-        (mod.func('Worker._start_single.get_input'), 'preprocess'),
-        (mod.func('Worker._build_input_batches'), 'preprocess'),
-    ]
-    for f, callee in sites:
-        sc = Scope(f)
-        cfg = build_cfg(f, ck.repo, make_fallible(sc, iters=set(), calls={callee}, raises=frozenset({'Exception'})))
-        ck.analysed_func(f, cfg)
-        calls = [n for n in cfg.nodes if header_expr(n) is not None and any((dotted(c.func) or '') == callee for c in calls_in(header_expr(n)))]
-        ck.need(calls, f'{f.key}: call of `{callee}` not found')
-        for cn in calls:
-            if not cn.loops:
-                continue
-            loop = cn.loops[0]  # the service loop (inner greedy-read loops may be left by `break`)
-            probs = []
-            outs = [e for e in cfg.succ[cn.id] if e.kind == 'exc']
-            for e in outs:
-                dst = cfg.nodes[e.dst]
-                if dst.kind != 'except' or loop not in dst.loops:
-                    probs.append(f'an Exception from `{callee}(…)` leaves the service loop: one failing request ends the worker (every later request is lost)')
-                    continue
-                if not dst.ast.name:
-                    probs.append('the handler does not bind the exception: the request would get no outcome')
-                    continue
-                # the bound exception becomes this request's value: assigned to the variable that carries the result/input
-                used = [k for k in cfg.nodes if k.id in reachable(cfg, [dst.id], avoid={loop}) and k.id != dst.id and header_expr(k) is not None and any(isinstance(x, ast.Name) and x.id == dst.ast.name for x in walk_shallow(header_expr(k)))]
-                if not used:
-                    probs.append('the caught exception is dropped: the request would get no outcome (or a wrong one)')
-                # stays in the loop: no path from the handler out of the loop that avoids the loop head ... (leaving by return/raise)
-                out_nodes = {k.id for k in cfg.nodes if loop not in k.loops and k.id != loop}
-                next_req = {k.id for k in cfg.nodes if header_expr(k) is not None and any(method_of(c)[1] in ('get', 'get_nowait') for c in calls_in(header_expr(k)))}
-                p = path_avoiding(cfg, [dst.id], out_nodes, avoid=set(cn.loops) | next_req | {k.id for k in cfg.nodes if k.extra.get('yield')})
-                if p is not None and any(isinstance(cfg.nodes[x].ast, (ast.Raise, ast.Return, ast.Break)) for x in p):
-                    probs.append('the handler leaves the service loop')
-            if not outs:
-                probs.append('no exception edge modelled')
-            ck.ob('C04-1', f, cn.ast, not probs, '; '.join(sorted(set(probs))) if probs else f'an Exception raised by `{callee}` becomes the value of that request and the loop goes on')
+    check_containment(ck, 'C04-1')
     # Parmapper branch of Worker.stream passes return_exceptions=True
     f = mod.func('Worker.stream')
     pm = [n for n in walk_shallow_func(f.node) if isinstance(n, ast.Call) and dotted(n.func) == 'Parmapper']
@@ -413,6 +376,49 @@ def check_onboarding(ck: Checker, rid: str):
             if cfg.exit_raise in reachable(cfg, [dst.id], edge_ok=lambda ed: True) and any(isinstance(cfg.nodes[k].ast, ast.Raise) for k in body):
                 probs.append(f'the handler at L{dst.lineno} re-raises: the thread dies')
     ck.ob(rid, f, puts[0].ast, not probs, '; '.join(sorted(set(probs))) if probs else f'a failing hand-over of `{x}` is answered to that request and the loop goes on')
+
+
+def check_containment(ck: Checker, rid: str):
+    """every call of per-request user code in a service loop is contained (C04-1)"""
+    mod = ck.repo.module(WORKER)
+    sites = [
+        (mod.func('Worker.stream'), 'self.call'),
+        (mod.func('Worker._start_single.get_input'), 'preprocess'),
+        (mod.func('Worker._build_input_batches'), 'preprocess'),
+    ]
+    for f, callee in sites:
+        sc = Scope(f)
+        cfg = build_cfg(f, ck.repo, make_fallible(sc, iters=set(), calls={callee}, raises=frozenset({'Exception'})))
+        ck.analysed_func(f, cfg)
+        calls = [n for n in cfg.nodes if header_expr(n) is not None and any((dotted(c.func) or '') == callee for c in calls_in(header_expr(n)))]
+        ck.need(calls, f'{f.key}: call of `{callee}` not found')
+        for cn in calls:
+            if not cn.loops:
+                continue
+            loop = cn.loops[0]  # the service loop (inner greedy-read loops may be left by `break`)
+            probs = []
+            outs = [e for e in cfg.succ[cn.id] if e.kind == 'exc']
+            for e in outs:
+                dst = cfg.nodes[e.dst]
+                if dst.kind != 'except' or loop not in dst.loops:
+                    probs.append(f'an Exception from `{callee}(…)` leaves the service loop: one failing request ends the worker (every later request is lost)')
+                    continue
+                if not dst.ast.name:
+                    probs.append('the handler does not bind the exception: the request would get no outcome')
+                    continue
+                # the bound exception becomes this request's value: assigned to the variable that carries the result/input
+                used = [k for k in cfg.nodes if k.id in reachable(cfg, [dst.id], avoid={loop}) and k.id != dst.id and header_expr(k) is not None and any(isinstance(x, ast.Name) and x.id == dst.ast.name for x in walk_shallow(header_expr(k)))]
+                if not used:
+                    probs.append('the caught exception is dropped: the request would get no outcome (or a wrong one)')
+                # stays in the loop: no path from the handler out of the loop that avoids the loop head ... (leaving by return/raise)
+                out_nodes = {k.id for k in cfg.nodes if loop not in k.loops and k.id != loop}
+                next_req = {k.id for k in cfg.nodes if header_expr(k) is not None and any(method_of(c)[1] in ('get', 'get_nowait') for c in calls_in(header_expr(k)))}
+                p = path_avoiding(cfg, [dst.id], out_nodes, avoid=set(cn.loops) | next_req | {k.id for k in cfg.nodes if k.extra.get('yield')})
+                if p is not None and any(isinstance(cfg.nodes[x].ast, (ast.Raise, ast.Return, ast.Break)) for x in p):
+                    probs.append('the handler leaves the service loop')
+            if not outs:
+                probs.append('no exception edge modelled')
+            ck.ob(rid, f, cn.ast, not probs, '; '.join(sorted(set(probs))) if probs else f'an Exception raised by `{callee}` becomes the value of that request and the loop goes on')
 
 
 def check_all_wrapping(ck: Checker, rid: str):
